@@ -262,6 +262,14 @@ func (vc *FuncVC) execute() {
 		penv[p.Name()] = t
 		vc.paramList = append(vc.paramList, t)
 		vc.typeFacts(tTrue, t, p.Type())
+		// whatever a parameter refers to existed before this invocation
+		al := vc.get(vc.init, "alloc", "(Array Int Bool)")
+		switch p.Type().Underlying().(type) {
+		case *types.Pointer, *types.Map:
+			vc.emit("(assert (or (= %s 0) (select %s %s)))", t.S, al.S, t.S)
+		case *types.Slice:
+			vc.emit("(assert (or (= (s!arr %s) 0) (select %s (s!arr %s))))", t.S, al.S, t.S)
+		}
 	}
 	for _, fv := range fn.FreeVars {
 		t := T("Int", "fv!"+smtIdent(fv.Name()))
@@ -269,6 +277,17 @@ func (vc *FuncVC) execute() {
 		vc.declare(t.S, "Int")
 		vc.regs[fv] = t
 		vc.emit("(assert (> %s 0))", t.S)
+	}
+	// names the contract was written with (a "params" line) are bound positionally too, so that a
+	// parameter rename in the source does not invalidate the contract
+	if vc.c != nil {
+		for i, n := range vc.c.Params {
+			if i < len(vc.paramList) && n != "" && n != "_" {
+				if _, ok := penv[n]; !ok {
+					penv[n] = vc.paramList[i]
+				}
+			}
+		}
 	}
 	vc.params = penv
 	// requires
@@ -1054,6 +1073,16 @@ func (vc *FuncVC) execInstr(s *State, in ssa.Instruction) {
 		vc.noteWrite("alloc")
 		vc.setReg(x, r)
 		z := vc.ss.zero(vc.ss.sortOf(et))
+		for _, fi := range vc.eng.specs.FreshInits {
+			if fi.Type == normType(et) {
+				e := vc.newEnv(s, s, x.Pos())
+				e.noLocals = true
+				rt := r
+				rt.GoT = x.Type()
+				e.vars["x"] = rt
+				vc.assume(s.pc, vc.tr(e, fi.E))
+			}
+		}
 		if isStruct(et) {
 			vc.storeStructToHeap(s, r, et, z)
 			info := vc.ss.structInfoOf(et)
